@@ -138,23 +138,26 @@ Proof. destruct l1 as [|x l1]; cbn [app is_contiguous]; [reflexivity|]. apply co
 (* SeekTable::to_writer's own check accepts such tables too *)
 Lemma seektable_ok_placeholders k o : seektable_ok o (repeat Placeholder k) = true.
 Proof. induction k; cbn [repeat seektable_ok]; [reflexivity|]. destruct o; exact IHk. Qed.
-Lemma seektable_ok_from k : forall l lo, Forall (fun x => lo < sp_sample x) l -> asc l -> all_defined l ->
+Definition below_max (l : list seekpoint) : Prop := Forall (fun x => sp_sample x <> U64_MAX) l.
+Lemma seektable_ok_from k : forall l lo, Forall (fun x => lo < sp_sample x) l -> asc l -> all_defined l -> below_max l ->
   seektable_ok (Some lo) (map to_mpoint l ++ repeat Placeholder k) = true.
 Proof.
-  induction l as [|a l IH]; intros lo F A D; cbn [map app].
+  induction l as [|a l IH]; intros lo F A D B; cbn [map app].
   - apply seektable_ok_placeholders.
-  - inversion F; subst. inversion A as [|? ? A' FA]; subst. inversion D as [|? ? Da D']; subst.
+  - inversion F; subst. inversion A as [|? ? A' FA]; subst. inversion D as [|? ? Da D']; subst. inversion B as [|? ? Ba B']; subst.
     unfold to_mpoint at 1. destruct (sp_byte a) as [ba|]; [|congruence]. cbn [seektable_ok].
+    destruct (N.eqb_spec (sp_sample a) U64_MAX); [contradiction|]. cbn [negb andb].
     replace (lo <? sp_sample a) with true by (symmetry; apply N.ltb_lt; assumption). cbn [andb].
     apply IH; auto.
 Qed.
-Lemma seektable_ok_asc l k : asc l -> all_defined l ->
+Lemma seektable_ok_asc l k : asc l -> all_defined l -> below_max l ->
   seektable_ok None (map to_mpoint l ++ repeat Placeholder k) = true.
 Proof.
-  intros A D. destruct l as [|a l]; cbn [map app].
+  intros A D B. destruct l as [|a l]; cbn [map app].
   - apply seektable_ok_placeholders.
-  - inversion A as [|? ? A' FA]; subst. inversion D as [|? ? Da D']; subst.
+  - inversion A as [|? ? A' FA]; subst. inversion D as [|? ? Da D']; subst. inversion B as [|? ? Ba B']; subst.
     unfold to_mpoint at 1. destruct (sp_byte a) as [ba|]; [|congruence]. cbn [seektable_ok].
+    destruct (N.eqb_spec (sp_sample a) U64_MAX); [contradiction|]. cbn [negb andb].
     apply seektable_ok_from; auto.
 Qed.
 Lemma seektable_ok_prefix : forall l1 l2 o, seektable_ok o (l1 ++ l2) = true -> seektable_ok o l1 = true.
@@ -162,8 +165,9 @@ Proof.
   induction l1 as [|x l1 IH]; intros l2 o H; cbn [app seektable_ok] in *; [reflexivity|].
   destruct o as [lo|].
   - destruct x as [s b n|]; [|eapply IH; eauto].
-    apply andb_prop in H. destruct H as [H1 H2]. rewrite H1. cbn. eapply IH; eauto.
-  - eapply IH; eauto.
+    apply andb_prop in H. destruct H as [H0 H]. apply andb_prop in H. destruct H as [H1 H2]. rewrite H0, H1. cbn. eapply IH; eauto.
+  - destruct x as [s b n|]; [|eapply IH; eauto].
+    apply andb_prop in H. destruct H as [H0 H]. rewrite H0. cbn. eapply IH; eauto.
 Qed.
 
 (* placeholder candidates carry no byte offset: they all become Placeholder *)
@@ -192,15 +196,32 @@ Proof.
   - eapply subseq_forall; [exact S|]. apply frame_seekpoints_defined.
 Qed.
 
+(* no candidate carries u64::MAX (the placeholder's mark) as long as the frames hold at most u64::MAX samples in all *)
+Definition total_fst (frames : list (N * N)) : N := fold_right (fun x acc => fst x + acc) 0 frames.
+Lemma frame_seekpoints_upper : forall frames s c, Forall (fun x => 1 <= fst x) frames ->
+  Forall (fun x => sp_sample x < s + total_fst frames) (frame_seekpoints s c frames).
+Proof.
+  induction frames as [|[n len] r IH]; intros s c F; cbn [frame_seekpoints total_fst fold_right]; constructor.
+  - inversion F as [|? ? Hn _]; subst. cbn in *. lia.
+  - inversion F as [|? ? Hn F']; subst. fold (total_fst r). eapply Forall_impl; [|apply (IH (s + n) (c + len) F')].
+    cbn. intros x Hx. lia.
+Qed.
+Lemma selected_below_max frames sel : Forall (fun x => 1 <= fst x) frames -> selected_ok frames sel ->
+  total_fst frames <= U64_MAX -> below_max sel.
+Proof.
+  intros F S Hb. unfold below_max. eapply subseq_forall; [exact S|].
+  eapply Forall_impl; [|apply (frame_seekpoints_upper frames 0 0 F)]. cbn. intros x Hx. lia.
+Qed.
+
 (* `to_contiguous` succeeds on: selected points cut to a length, padded with placeholders *)
 Lemma to_contiguous_selected frames sel k n :
-  Forall (fun x => 1 <= fst x) frames -> selected_ok frames sel -> n <= MAX_POINTS ->
+  Forall (fun x => 1 <= fst x) frames -> selected_ok frames sel -> total_fst frames <= U64_MAX -> n <= MAX_POINTS ->
   let l := take_n (map to_mpoint sel ++ repeat Placeholder k) n in
   to_contiguous l = Ok l /\ seektable_ok None l = true.
 Proof.
-  intros F S Hn l. destruct (selected_asc frames sel F S) as [A D].
+  intros F S Hmax Hn l. destruct (selected_asc frames sel F S) as [A D].
   destruct (take_n_prefix (map to_mpoint sel ++ repeat Placeholder k) n) as (r & E). fold l in E.
-  pose proof (contiguous_asc sel k A D) as C. pose proof (seektable_ok_asc sel k A D) as T.
+  pose proof (contiguous_asc sel k A D) as C. pose proof (seektable_ok_asc sel k A D (selected_below_max frames sel F S Hmax)) as T.
   rewrite E in C, T. apply contiguous_prefix in C. apply seektable_ok_prefix in T.
   split; [|exact T]. unfold to_contiguous. rewrite C.
   assert (N.of_nat (length l) <= MAX_POINTS).
